@@ -4,3 +4,4 @@ from . import determinism  # noqa: F401
 from . import results  # noqa: F401
 from . import package  # noqa: F401
 from . import typemap  # noqa: F401
+from . import naming  # noqa: F401
